@@ -11,6 +11,7 @@ import Iodata.Lemmas.Fmt.Xyz
 import Iodata.Lemmas.Fmt.Sdf
 import Iodata.Lemmas.Fmt.Pdb
 import Iodata.Lemmas.Fmt.PdbConect
+import Iodata.Lemmas.Fmt.Fchk
 import Iodata.Gen.Layouts
 
 namespace Iodata.Props.C02
@@ -176,5 +177,76 @@ example : Pdb.dumpConect pdbL 6 [(0, 1), (0, 2), (0, 3), (0, 4)] =
      "CONECT    3    1\n".toList, "CONECT    4    1\n".toList, "CONECT    5    1\n".toList] ∧
     (Pdb.dumpConect pdbL 6 [(0, 1), (0, 2), (0, 3), (0, 4), (5, 0)]).take 2 =
     ["CONECT    1    2    3    4    5\n".toList, "CONECT    1    6\n".toList] := by decide +kernel
+
+end Iodata.Props.C02
+
+namespace Iodata.Props.C02
+open Iodata.Chars Iodata.Decimal Iodata.Fmt Iodata.Gen.Layouts
+
+/-! ## Scientific notation (shared by FCHK, Cube, FCIDUMP) -/
+
+/-- `float(pad + f"{x: w.dE}" + pad')` is the printed mantissa/exponent pair: every sign (`-0.0` included), every
+mantissa of `d+1` digits, every exponent (two or more digits), with or without the `' '` flag, `E` or `e`. -/
+theorem sci_roundtrip (sp up : Bool) (w d : Nat) (x : Sci) (hd : 0 < d) (hm : x.man < 10 ^ (d + 1)) (q : Str) (hq : AllWs q) :
+    pySci d (fmtSci sp up w d x ++ q) = some x :=
+  pySci_fmtSci sp up w d x hd hm q hq
+
+/-! ## FCHK, field layer -/
+
+/-- FCHK: a file made of the two header lines and any list of fields (integer/real scalars, integer/real arrays of any
+length ≥ 0 — six integers or five reals per line, ragged last line —, distinct labels of at most 40 characters) is read
+back by `_load_fchk_low` + the header part of `load_one` as written: same labels, same values in the same order, arrays
+of length zero left out (the writer skips them), title defaulted, level of theory and basis name lower-cased, run type
+mapped through the writer's and the reader's tables. -/
+theorem fchk_load_dump (L : Fchk.Layout) (hL : Fchk.LayoutOK L) (R : Fchk.RunTypes) (hR : Fchk.RunTypesOK L R)
+    (keep : Str → Bool) (o : Fchk.Obj) (h : Fchk.Dom L o) (hk : ∀ f ∈ o.fields, keep f.1 = true) :
+    Fchk.load L.reader R keep (Fchk.dump L R o) = .ok (Fchk.norm L R o) :=
+  Fchk.load_dump L hL R hR keep o h hk
+
+/-- FCHK: array lines for ALL sizes: the lines hold the elements in order, none is empty, none has more than `k`
+elements, and their lengths are `k, …, k, (n-1) mod k + 1`. -/
+theorem fchk_chunks (α : Type) (k : Nat) (hk : 0 < k) (l : List α) (hne : l ≠ []) :
+    (Fchk.chunks k l).flatten = l ∧ (∀ ch ∈ Fchk.chunks k l, ch ≠ [] ∧ ch.length ≤ k) ∧
+    (Fchk.chunks k l).map List.length = List.replicate ((l.length - 1) / k) k ++ [(l.length - 1) % k + 1] :=
+  ⟨(Fchk.chunks_spec k hk l hne).1, (Fchk.chunks_spec k hk l hne).2, Fchk.chunkF_lengths k hk l.length l (Nat.le_refl _) hne⟩
+
+/-- FCHK: `arr[np.tril_indices(n)]` applied to `_triangle_to_dense(t)` gives `t` back, for every matrix size `n`
+(Hessian, polarizability, density matrices); the dense matrix is symmetric. -/
+theorem fchk_tril_dense (α : Type) (d : α) (n : Nat) (t : List α) (h : t.length = n * (n + 1) / 2) :
+    Fchk.tril (Fchk.dense d n t) = t ∧
+    ∀ i j, ((Fchk.dense d n t).getD i []).getD j d = ((Fchk.dense d n t).getD j []).getD i d :=
+  ⟨Fchk.tril_dense d n t h, Fchk.dense_symm d n t⟩
+
+/-- FCHK: the quadrupole index vector of the reader undoes the one of the writer (both extracted from the source):
+`q[W][R] = q` for every six-component moment. -/
+theorem fchk_quadrupole_inverse (α : Type) (d a b c e f g : α) :
+    Fchk.pick d fchkQuadR (Fchk.pick d fchkQuadW [a, b, c, e, f, g]) = [a, b, c, e, f, g] := by
+  rfl
+
+/-- FCHK: the writer's order is XX, YY, ZZ, XY, XZ, YZ of an alphabetically stored quadrupole (xx, xy, xz, yy, yz, zz). -/
+theorem fchk_quadrupole_order : fchkQuadW = [0, 3, 5, 1, 2, 4] ∧ fchkQuadW.length = 6 ∧ fchkQuadR.length = 6 := by decide
+
+/-- FCHK: the layout and the run-type tables in the source satisfy the side conditions: the label is cut where the writer
+ends it, every command the writer emits is one word that the reader maps back (`opt` → `FOpt` → `opt`, …). -/
+theorem fchk_layout_ok : Fchk.LayoutOK fchkL ∧ Fchk.RunTypesOK fchkL fchkRunTypes ∧
+    ∀ e ∈ fchkRunTypes.writer, lookupK fchkRunTypes.reader e.2 = some e.1 := by decide +kernel
+
+/-- FCHK: the four field writers and the field reader in the source have the shape the model assumes. -/
+theorem fchk_source_shape :
+    fchk_writes.filter (fun w => w.1 != "dump_one".toList) = Fchk.expectedWrites fchkL ∧
+    fchk_slices = [⟨"_load_fchk_field".toList, "label".toList, 0, some fchkL.cut, false⟩,
+                   ⟨"_load_fchk_field".toList, "words".toList, fchkL.cut, none, false⟩] := by decide +kernel
+
+/-- non-vacuity: scalars, arrays of 5, 6, 7 and 0 elements, a negative number with a two-digit exponent in every column,
+`opt` as run type. -/
+example : Fchk.Dom fchkL ⟨['t'], some ['o','p','t'], some ['h','f'], none,
+    [(['N'], .int (-12)), (['E',' ','x'], .real ⟨true, 123456789, -99⟩),
+     (['A'], .ints [1, -2, 3, 4, 5, 6, 7]), (['B'], .reals (List.replicate 6 ⟨true, 999999999, 99⟩)), (['C'], .reals []),
+     (['D'], .ints [0, 0, 0, 0, 0])]⟩ := by decide +kernel
+
+example : Fchk.load fchkL.reader fchkRunTypes (fun _ => true) (Fchk.dump fchkL fchkRunTypes
+      ⟨[], some ['o','p','t'], some ['H','f'], none, [(['A'], .ints [1, -2, 3, 4, 5, 6, 7]), (['C'], .reals [])]⟩)
+    = .ok ⟨fchkL.defaultTitle, some ['o','p','t'], ['h','f'], some ['n','a'], [(['A'], .ints [1, -2, 3, 4, 5, 6, 7])]⟩ := by
+  decide +kernel
 
 end Iodata.Props.C02
